@@ -155,9 +155,17 @@ def check_inference_table(idx, run, cls):
                 else:
                     want = ["private"]
                 n += 1
+                # conservative answers are fine: firstprivate wherever
+                # private is enough, need_sync (a refusal) anywhere
+                safe = {(): [[], ["need_sync"]],
+                        ("private",): [["private"], ["firstprivate"],
+                                       ["need_sync"]],
+                        ("firstprivate",): [["firstprivate"],
+                                            ["need_sync"]],
+                        ("need_sync",): [["need_sync"]]}[tuple(want)]
                 bad = [(extra, sorted(roles.get(o, o) for o in out), broke)
                        for extra, broke, out in runs
-                       if sorted(roles.get(o, o) for o in out) != want
+                       if sorted(roles.get(o, o) for o in out) not in safe
                        or not broke]
                 got = bad[0][1] if bad else want
                 broke = not bad or bad[0][2]
